@@ -24,11 +24,11 @@ decreasing_by
     | (have := Ty.w_lt_wl ‹_ ∈ _›; omega)
 
 /-- Fragment of `C01_sound_partial`: hereditarily no `Iterable[..]` (its instance rule is an assignability question about an inferred
-    type, and is genuinely unsound) and no `Data` / `RichData`.  `Type[T]` is allowed; its content `T` must lie in the fragment of
+    type, and is genuinely unsound).  `Type[T]` is allowed; its content `T` must lie in the fragment of
     transitivity (`Ty.TF`, added as a separate condition `Ty.TypTF`), because soundness for `Type[..]` IS transitivity (C03). -/
 def Ty.Frag (t : Ty) : Prop :=
   match t with
-  | .iterable _ | .data | .richData => False
+  | .iterable _ => False
   | .typ t' => Ty.TF t'
   | .array e _ => Ty.Frag e
   | .hash k v _ => Ty.Frag k ∧ Ty.Frag v
@@ -82,7 +82,8 @@ theorem isPrefix_trans : ∀ (p q x : List Nat), isPrefix p q = true → isPrefi
         simp [isPrefix] at h1 h2 ⊢
         exact ⟨h1.1.trans h2.1, ih bs cs h1.2 h2.2⟩
 
-/-- every type used as a value inside `v` lies in the transitivity fragment and is well-formed -/
+/-- side conditions of C01 on values: every type used as a value inside `v` lies in the transitivity fragment and is well-formed, and
+    container lengths are within int64 (Go's `len` is an `int`; the model's lists are unbounded) -/
 inductive Val.TyOK (cfg : Cfg) : Val → Prop
   | undef : Val.TyOK cfg .undef
   | dflt : Val.TyOK cfg .dflt
@@ -96,15 +97,20 @@ inductive Val.TyOK (cfg : Cfg) : Val → Prop
   | typ (t) : t.TF → Ty.WF cfg t → Val.TyOK cfg (.typ t)
   | obj (p) : Val.TyOK cfg (.obj p)
   | sensitive (v) : Val.TyOK cfg v → Val.TyOK cfg (.sensitive v)
-  | array (vs) : (∀ x ∈ vs, Val.TyOK cfg x) → Val.TyOK cfg (.array vs)
-  | hash (es : List (Val × Val)) : (∀ e ∈ es, Val.TyOK cfg e.1) → (∀ e ∈ es, Val.TyOK cfg e.2) → Val.TyOK cfg (.hash es)
+  | array (vs) : ((vs.length : Int) ≤ I64.max) → (∀ x ∈ vs, Val.TyOK cfg x) → Val.TyOK cfg (.array vs)
+  | hash (es : List (Val × Val)) : ((es.length : Int) ≤ I64.max) → (∀ e ∈ es, Val.TyOK cfg e.1) → (∀ e ∈ es, Val.TyOK cfg e.2) →
+      Val.TyOK cfg (.hash es)
 
 theorem Val.TyOK.elems {cfg : Cfg} {vs : List Val} (h : Val.TyOK cfg (.array vs)) : ∀ x ∈ vs, Val.TyOK cfg x := by
-  cases h with | array _ h => exact h
+  cases h with | array _ _ h => exact h
 theorem Val.TyOK.keys {cfg : Cfg} {es : List (Val × Val)} (h : Val.TyOK cfg (.hash es)) : ∀ e ∈ es, Val.TyOK cfg e.1 := by
-  cases h with | hash _ h _ => exact h
+  cases h with | hash _ _ h _ => exact h
 theorem Val.TyOK.vals {cfg : Cfg} {es : List (Val × Val)} (h : Val.TyOK cfg (.hash es)) : ∀ e ∈ es, Val.TyOK cfg e.2 := by
-  cases h with | hash _ _ h => exact h
+  cases h with | hash _ _ _ h => exact h
+theorem Val.TyOK.alen {cfg : Cfg} {vs : List Val} (h : Val.TyOK cfg (.array vs)) : (vs.length : Int) ≤ I64.max := by
+  cases h with | array _ h _ => exact h
+theorem Val.TyOK.hlen {cfg : Cfg} {es : List (Val × Val)} (h : Val.TyOK cfg (.hash es)) : (es.length : Int) ≤ I64.max := by
+  cases h with | hash _ h _ _ => exact h
 theorem Val.TyOK.inner {cfg : Cfg} {v : Val} (h : Val.TyOK cfg (.sensitive v)) : Val.TyOK cfg v := by
   cases h with | sensitive _ h => exact h
 
